@@ -165,10 +165,11 @@ class DispatchTable(object):
                 # <module>.<Class>.<TABLE>
                 owner = c.mod.resolve(a.value)
                 if isinstance(owner, ClassInfo):
-                    t = DispatchTable._tables_cache.get(id(owner))
+                    ent = DispatchTable._tables_cache.get(id(owner))
+                    t = ent[1] if ent is not None and ent[0] is owner else None
                     if t is None:
                         t = self._class_tables(owner)
-                        DispatchTable._tables_cache[id(owner)] = t
+                        DispatchTable._tables_cache[id(owner)] = (owner, t)     # the class is kept alive with its tables: ids are reused
                     if a.attr in t:
                         return sem.clone(t[a.attr])
             return self._table_value(a, c, known) if isinstance(a, ast.Dict) else None
